@@ -224,6 +224,15 @@ def run_many(r, seed, kl, count):
                 break
             seen_iv[c[:16]] = i
             seen_ct[c] = i
+        # an IV is 16 fresh random bytes: over the run every byte position takes many values (a position that is constant, or takes
+        # fewer than 16 values in >= 600 draws, has probability < 1e-100 for uniform bytes)
+        if len(seen_iv) >= 600:
+            for pos in range(16):
+                vals = {iv[pos] for iv in seen_iv}
+                if len(vals) < 16:
+                    r.v(PROPERTY, 'AES-CBC', 'randomness', 'iv-byte-not-random', {'key_length': kl, 'message_length': len(m), 'position': pos},
+                        'every IV byte varies over %d encryptions' % len(seen_iv), 'byte %d takes only %d value(s): %s' % (pos, len(vals), sorted(vals)[:4]))
+                    break
         r['evaluations'] += 1
         r['states'] += 1
         r['nontrivial'] += 1
